@@ -5,6 +5,8 @@ void register_c06();
 void register_solve();
 void register_c05();
 void register_c07();
+void register_c16();
+void register_c18();
 void register_all_properties() {
   static bool done = false;
   if (done) return;
@@ -13,5 +15,7 @@ void register_all_properties() {
   register_solve();
   register_c05();
   register_c07();
+  register_c16();
+  register_c18();
 }
 }
